@@ -197,6 +197,12 @@ class Interp(object):
         elif isinstance(t, ast.Subscript):
             c = self.expr(t.value, env)
             i = self.expr(t.slice, env)
+            if isinstance(c, dict):
+                try:
+                    c[i] = v
+                except TypeError:
+                    raise Undecided('unhashable key %r' % (i,))
+                return
             if not isinstance(c, list) or not isinstance(i, int):
                 raise Undecided('subscript store on non-list')
             c[i] = v
@@ -206,10 +212,12 @@ class Interp(object):
     def iterate(self, v):
         if isinstance(v, (list, tuple, range)):
             return list(v)
+        if isinstance(v, dict):
+            return list(v.keys())
         raise Undecided('iteration over %r' % (v,))
 
     def truth(self, v):
-        if isinstance(v, (bool, int, list, tuple, range)) or v is None:
+        if isinstance(v, (bool, int, list, tuple, range, dict)) or v is None:
             return bool(v)
         if isinstance(v, str):
             return bool(v)
@@ -262,6 +270,19 @@ class Interp(object):
             return tuple(vals) if isinstance(e, ast.Tuple) else vals
         if isinstance(e, (ast.ListComp, ast.GeneratorExp)):
             return self.comp(e, env)
+        if isinstance(e, ast.Dict):
+            d = {}
+            for k, v in zip(e.keys, e.values):
+                if k is None:
+                    raise Undecided('dict unpacking')
+                kk = self.expr(k, env)
+                try:
+                    d[kk] = self.expr(v, env)
+                except TypeError:
+                    raise Undecided('unhashable dict key %r' % (kk,))
+            return d
+        if isinstance(e, ast.DictComp):
+            raise Undecided('dict comprehension')
         if isinstance(e, ast.Subscript):
             c = self.expr(e.value, env)
             if isinstance(e.slice, ast.Slice):
@@ -278,6 +299,13 @@ class Interp(object):
                 if isinstance(i, int) and c.length is not None and not (-c.length <= i < c.length):
                     raise Raised('IndexError')
                 raise Undecided('item %r of %r' % (i, c))
+            if isinstance(c, dict):
+                try:
+                    if i in c:
+                        return c[i]
+                except TypeError:
+                    raise Undecided('unhashable key %r' % (i,))
+                raise Raised('KeyError')
             if isinstance(c, (list, tuple)) and isinstance(i, int):
                 try:
                     return c[i]
@@ -352,6 +380,12 @@ class Interp(object):
         if isinstance(op, (ast.Is, ast.IsNot)) and (a is None or b is None or isinstance(a, Kind) or isinstance(b, Kind)):
             r = (a is b) or (isinstance(a, Kind) and a == b)
             return r if isinstance(op, ast.Is) else not r
+        if isinstance(op, (ast.In, ast.NotIn)) and isinstance(b, dict):
+            try:
+                r = a in b
+            except TypeError:
+                raise Undecided('unhashable key')
+            return r if isinstance(op, ast.In) else not r
         if isinstance(op, (ast.In, ast.NotIn)) and isinstance(b, (list, tuple)):
             r = a in b
             return r if isinstance(op, ast.In) else not r
@@ -374,6 +408,32 @@ class Interp(object):
         return out
 
     def call(self, e, env):
+        # methods of concrete dicts
+        if isinstance(e.func, ast.Attribute) and e.func.attr in ('get', 'keys', 'values', 'items', 'setdefault', 'pop'):
+            try:
+                recv = self.expr(e.func.value, env)
+            except Undecided:
+                recv = None
+            if isinstance(recv, dict):
+                args = [self.expr(a, env) for a in e.args]
+                try:
+                    if e.func.attr == 'get':
+                        return recv.get(args[0], args[1] if len(args) > 1 else None)
+                    if e.func.attr == 'setdefault':
+                        return recv.setdefault(args[0], args[1] if len(args) > 1 else None)
+                    if e.func.attr == 'pop':
+                        if args[0] in recv:
+                            return recv.pop(args[0])
+                        if len(args) > 1:
+                            return args[1]
+                        raise Raised('KeyError')
+                except TypeError:
+                    raise Undecided('unhashable key')
+                if e.func.attr == 'keys':
+                    return list(recv.keys())
+                if e.func.attr == 'values':
+                    return list(recv.values())
+                return [tuple(kv) for kv in recv.items()]
         # methods of concrete lists
         if isinstance(e.func, ast.Attribute) and e.func.attr in ('append', 'extend', 'insert', 'index', 'count'):
             try:
